@@ -260,6 +260,20 @@ Theorem failing_maintainer_exact_effect :
 Proof. exact change_fails_at. Qed.
 Print Assumptions failing_maintainer_exact_effect.
 
+(* ... and what it means for the property: with two handlers observing through the same trait, the first one's
+   failing maintainer starves the second (error path; known finding `failing-maintainer/...`): the second handler
+   misses the change (401), the detached old value still calls it (502), the new value does not (601). *)
+Definition starved_maintainer_history : list op :=
+  [AddTrait 1 12; SetRef 0 1 [1]; Observe 0 0 (G [1] true true false [G [12] true true false []]);
+   Observe 1 0 (G [1] true true false [G [0] true true false []]); SetRef 0 1 [2]; Probe 1; Probe 2].
+Theorem failing_maintainer_refuted :
+  exists ops, hyps (init 3) ops = false
+              /\ map (fun p : op * obs => ob_out (snd p)) (run (init 3) ops)
+                 = [Ok; Ok; Ok; Ok; Raise ValueError; Ok; Ok]
+              /\ law_hist 0%Z init_traits (fun _ _ => []) [] (run (init 3) ops) = [401%Z; 502%Z; 601%Z].
+Proof. exists starved_maintainer_history. vm_compute. repeat split; reflexivity. Qed.
+Print Assumptions failing_maintainer_refuted.
+
 (* The optional flag only matters for failure: it never changes which (object, trait) pairs an expression
    reaches, and an expression all of whose observers are optional can always be hooked. *)
 Theorem optional_flag_does_not_change_reachability :
